@@ -245,8 +245,8 @@ CONTROLS = [
     ('g21-pp-entry-runs-to-eof', 'G21', 'syn', 'preprocessor_text:not-total', [(PARSER + 'preprocessor/preprocessor.rs',
         '    let (s, a) = many0(source_description)(s)?;', '    let (s, (a, _)) = many_till(source_description, eof)(s)?;', 1)]),
     ('p3-include-macro-error-swallowed', 'P3', 'syn', 'preprocess_str->resolve_text_macro_usage:swallowed', [(PPF,
-        '                            resolve_depth + 1,\n                            include_depth,\n                        )? {\n                            let p = p.trim().trim_matches(\'"\');\n                            PathBuf::from(p)\n                        } else {\n                            PathBuf::from("")\n                        }',
-        '                            resolve_depth + 1,\n                            include_depth,\n                        ) {\n                            let p = p.trim().trim_matches(\'"\');\n                            PathBuf::from(p)\n                        } else {\n                            PathBuf::from("")\n                        }', 1),
+        '                            resolve_depth + 1,\n                            include_depth,\n                        )? {\n                            let p = p.trim();',
+        '                            resolve_depth + 1,\n                            include_depth,\n                        ) {\n                            let p = p.trim();', 1),
         (PPF, '                        if let Some((p, _, _)) = resolve_text_macro_usage(\n                            x,\n                            s,\n                            path.as_ref(),',
          '                        if let Ok(Some((p, _, _))) = resolve_text_macro_usage(\n                            x,\n                            s,\n                            path.as_ref(),', 1)]),
     ('x14-define-skipped-when-same-text', 'X14', 'syn', 'write-conditional:define', [(PPF, '                    defines.insert(id, Some(define));',
